@@ -770,6 +770,19 @@ def symmetry_duplication(item):
     return ok(len(pairs) > 1)
 
 
+_REAL_MEMO = {}
+
+
+def _real_once(tag, item, thunk):
+    """The real tool is deterministic in its (immutable) input: within one process its
+    output for an input is computed once (the known-finding predicates re-evaluate the
+    expectation with another table, not the code under test)."""
+    key = (tag, codec.enc(item))
+    if key not in _REAL_MEMO:
+        _REAL_MEMO[key] = thunk()
+    return _REAL_MEMO[key]
+
+
 def _class_vectors(basis, n, table):
     """name -> list over lengths 0..n of the sorted value multiset of the spec class."""
     out = {name: [] for name in NAMES}
@@ -785,7 +798,7 @@ def _eval_equally_distributed(item, table):
     v1, v2 = _class_vectors(b1, n, table), _class_vectors(b2, n, table)
     want = sorted(name for name in NAMES
                   if all(sorted(v1[name][i]) == sorted(v2[name][i]) for i in range(n + 1)))
-    got = sorted(_PS().equally_distributed(_class(b1), _class(b2), n))
+    got = _real_once("ed", item, lambda: sorted(_PS().equally_distributed(_class(b1), _class(b2), n)))
     if got != want:
         miss, extra = _diff(want, got)
         return bad({"not reported although equidistributed": miss}, {"reported although not equidistributed": extra},
@@ -803,7 +816,8 @@ def _eval_jointly(item, table):
     v1, v2 = _class_vectors(b1, n, table), _class_vectors(b2, n, table)
     want = sorted(c for c in itertools.combinations(NAMES, dim)
                   if all(_joint(v1, c, i) == _joint(v2, c, i) for i in range(n + 1)))
-    got = sorted(tuple(x) for x in _PS().jointly_equally_distributed(_class(b1), _class(b2), n, dim))
+    got = _real_once("jed", item, lambda: sorted(
+        tuple(x) for x in _PS().jointly_equally_distributed(_class(b1), _class(b2), n, dim)))
     if got != want:
         miss, extra = _diff(want, got)
         return bad({"missing": miss[:40]}, {"extra": extra[:40]},
@@ -832,8 +846,8 @@ def _eval_jointly_transformed(item, table, both_directions=True):
         for s2 in by_sig.get(sig1[s1], ()):
             if s1 != s2 and (both_directions or pos[s1] < pos[s2]):
                 want.add((s1, s2))
-    got = [(tuple(a), tuple(b)) for a, b in
-           _PS().jointly_transformed_equally_distributed(_class(b1), _class(b2), n, dim)]
+    got = _real_once("jted", item, lambda: [
+        (tuple(a), tuple(b)) for a, b in _PS().jointly_transformed_equally_distributed(_class(b1), _class(b2), n, dim)])
     gots = set(got)
     nt = 0 < len(want)
     if len(gots) != len(got):
